@@ -109,6 +109,12 @@ pub fn edits(src: &str) -> Vec<Edit> {
         for (ws, name) in [(" ", "space"), ("\t", "tab"), ("\r", "carriage return")] {
             out.push(mk(splice(src, t.end, 0, ws), format!("{} after token {}", name, i), EditKind::Neutral, t.end, 0, ws.len()));
         }
+        // a'. a single-space separator written as a tab / carriage return / two spaces
+        if gap == " " {
+            for (ws, name) in [("\t", "tab"), ("\r", "carriage return"), ("  ", "two spaces"), ("\r ", "CR space")] {
+                out.push(mk(splice(src, t.end, 1, ws), format!("the space after token {} written as {}", i, name), EditKind::Neutral, t.end, 1, ws.len()));
+            }
+        }
         // b. comment
         if let Some(n) = next {
             let n_is_nl = n.tok == Tok::End && &src[n.start..n.end] == "\n";
